@@ -78,6 +78,20 @@ func c07(args []string) {
 					return 1
 				}})
 			jobs = append(jobs, &job{s: s, bh: bh, cfg: Cfg{Buf: 128, Procs: 4}, kind: "oversize"})
+			// the oversize process as the last step without out-ports (it becomes the driver)
+			s2 := s.Clone()
+			s2.Name += "_leaf"
+			w1 := s2.Proc("w1")
+			w1.Cmd = spec.BuildCmd("w1", []spec.PortDecl{{Name: "in"}}, nil, nil, nil, nil)
+			var conns []*spec.Conn
+			for _, cn := range s2.Conns {
+				if cn.To == "w1.in" {
+					cn.From = "w0.out"
+				}
+				conns = append(conns, cn)
+			}
+			s2.Conns = conns
+			jobs = append(jobs, &job{s: s2, bh: bh, cfg: Cfg{Buf: 128, Procs: 4, SoftSec: 6}, kind: "oversize"})
 		}
 	}
 	run.Parallel(len(jobs), func(i int) {
